@@ -216,6 +216,7 @@ def rules_of(e, defs, out):
 WRAP = '''// generated wrapper TU — C12: the real parse_tree::parse<> on a grammar over symbolic sub-rules, custom node class, selector under test
 #define C12_MAXCH %(maxch)d
 #define C12_MAXD %(maxd)d
+%(control)s
 #include "c12_tree.hpp"
 using namespace tao::pegtl;
 using vf::sym;
@@ -232,7 +233,7 @@ C12_WRAP_STACK( w_tree, G, %(selname)s, %(action)s )
 '''
 
 
-def wrapper_text(grammar, sel, defs, maxch, maxd, action=None):
+def wrapper_text(grammar, sel, defs, maxch, maxd, action=None, control=None):
     e = parse(grammar)
     pre = []
     pdefs = {k: (v[0], parse(v[1])) for k, v in (defs or {}).items()}
@@ -254,7 +255,7 @@ def wrapper_text(grammar, sel, defs, maxch, maxd, action=None):
     types = [k for v in groups.values() for k in v]
     act = 'vf::act_bool' if action == 'bool' else 'vf::act0_void' if action == 'void0' else 'tao::pegtl::nothing'
     return WRAP % {'maxch': maxch, 'maxd': maxd, 'preamble': '\n'.join(pre), 'grammar': repr(e), 'rids': '', 'selector': selector,
-                   'types': ', '.join(types), 'selname': 'sel', 'action': act}
+                   'types': ', '.join(types), 'selname': 'sel', 'action': act, 'control': '#define C12_CONTROL vf::vmi_control' if control == 'mustif' else ''}
 
 
 def wrapper_text_all(grammar, gen, maxch, maxd):
